@@ -93,6 +93,18 @@ def run(ctx, rep):
     alias = _aliases(f)
 
     def make_eval(side, kind, status, ndh, rel, line_none):
+        def evb(e):
+            """a boolean sub-expression (not / and / or over atoms)"""
+            if isinstance(e, ast.UnaryOp) and isinstance(e.op, ast.Not):
+                v = evb(e.operand)
+                return None if v is None else not v
+            if isinstance(e, ast.BoolOp):
+                vals = [evb(x) for x in e.values]
+                if isinstance(e.op, ast.And):
+                    return False if False in vals else (None if None in vals else True)
+                return True if True in vals else (None if None in vals else False)
+            return ev(e)
+
         def ev(e):
             v = ev0(e)
             if v is None and alias:
@@ -100,6 +112,13 @@ def run(ctx, rep):
             return v
 
         def ev0(e):
+            # truth values compared with each other: (side == 'BACK') == (price > result)
+            if isinstance(e, ast.Compare) and len(e.ops) == 1 and isinstance(e.ops[0], (ast.Eq, ast.NotEq, ast.Is, ast.IsNot)):
+                sides = [e.left, e.comparators[0]]
+                if all(isinstance(x, (ast.Compare, ast.BoolOp, ast.UnaryOp)) for x in sides):
+                    vals = [evb(x) for x in sides]
+                    if None not in vals:
+                        return (vals[0] == vals[1]) == isinstance(e.ops[0], (ast.Eq, ast.Is))
             t = utext(e)
             if t == "self.side == 'BACK'":
                 return side == "BACK"
@@ -268,6 +287,27 @@ def run(ctx, rep):
             rep.check(all(any(a == "S" and e >= 1 for a, e in mono) for mono in got), "R4",
                       key(f, None, "nothing matched, nothing paid: " + label), f, rb[0][0].ast,
                       "every term carries the matched size")
+    # rounding: to the penny once, at the end (the polynomial comparison above looks through round()); an
+    # intermediate amount rounded on the way - a stake share, a part of the payout - changes what is paid
+    from sa.kinds import folded_returns
+    inner = set()
+    for kind, status, ndh, rel, line_none in cases:
+        for side in ("BACK", "LAY"):
+            for txt in folded_returns(cfg, f, make_eval(side, kind, status, ndh, rel, line_none)):
+                e = ast.parse(txt, mode="eval").body
+                while True:
+                    if isinstance(e, ast.UnaryOp) and isinstance(e.op, (ast.USub, ast.UAdd)):
+                        e = e.operand
+                    elif isinstance(e, ast.Call) and isinstance(e.func, ast.Name) and e.func.id == "round" and e.args:
+                        e = e.args[0]
+                        break
+                    else:
+                        break
+                for x in ast.walk(e):
+                    if isinstance(x, ast.Call) and isinstance(x.func, ast.Name) and x.func.id == "round":
+                        inner.add(utext(x))
+    rep.check(not inner, "R4", key(f, None, "amounts are rounded once, at the end"), f, None,
+              "rounded on the way: %s" % sorted(inner)[:3])
     rep.floor("R4", "settlement formula cases", n_formula, 12)
     rep.note("settlement_formula_cases", n_formula)
 
@@ -312,6 +352,10 @@ def run(ctx, rep):
 
 SIM = "flumine/simulation/simulatedorder.py"
 MUTANTS = [
+    dict(id="c08-stake-share-rounded", file=SIM, func="SimulatedOrder.profit",
+         old="                    profit = (self.size_matched / number_of_dead_heat_winners) * (",
+         new="                    profit = round(self.size_matched / number_of_dead_heat_winners, 2) * (",
+         expect=["R4"], why="the dead-heat share of the stake is rounded before it is multiplied by the odds"),
     dict(id="c08-winner-pays-price-not-odds", file=SIM, func="SimulatedOrder.profit",
          old="                    profit = (self.size_matched / number_of_dead_heat_winners) * (\n                        self.average_price_matched - 1\n                    )",
          new="                    profit = (self.size_matched / number_of_dead_heat_winners) * (\n                        self.average_price_matched\n                    )",
